@@ -27,6 +27,51 @@ def impl_raw(rule, op, x, y, int_dtype=False):
 KEEP = []     # (real result, canonical value when produced, description, operands + their snapshots)
 
 
+KOBJ = {}          # public-kinds stream: case id -> (left object, right object) of other operand kinds
+
+
+def _kind_operand(rng, kind, sign):
+    """an operand of the given kind and its p-box (left[], right[]) as the library itself converts it"""
+    import warnings
+    import pyuncertainnumber.pba as pba
+    from pyuncertainnumber.pba.intervals.number import Interval
+    if kind == "P":
+        b = pbx.int_box200(rng, sign)
+        return pbx.stair(*b), b
+    if kind == "I":
+        lo = {"pos": rng.choice([1, 2, 10]), "neg": rng.choice([-12, -5, -3]), "str": rng.choice([-3, -1])}[sign]
+        hi = lo + rng.choice([1, 2]) if sign != "str" else rng.choice([1, 2, 4])
+        return Interval(lo, hi), ([float(lo)] * 200, [float(hi)] * 200)
+    # Dempster-Shafer structure: 2..5 focal elements (nested, overlapping, disjoint, unordered), unequal dyadic masses
+    k = rng.choice([2, 3, 4, 5])
+    off = {"pos": 1, "neg": -20, "str": -6}[sign]
+    foc = []
+    for _ in range(k):
+        a = off + rng.choice(range(0, 9)); b = a + rng.choice(range(0, 6))
+        if sign == "neg":
+            b = min(b, -1); a = min(a, b)
+        foc.append([a, b])
+    w = [rng.choice([1, 1, 2, 3, 5]) for _ in range(k)]
+    tot = sum(w)
+    with warnings.catch_warnings():
+        warnings.simplefilter("ignore")
+        D = pba.DSS(foc, [v / tot for v in w])
+        P = D.to_pbox()
+    return D, ([float(v) for v in P.left], [float(v) for v in P.right])
+
+
+def impl_kinds(op, key):
+    """bare operator between operands of mixed kinds (Interval / DempsterShafer / p-box on either side)"""
+    import warnings
+    L, R = KOBJ[key]
+    try:
+        with warnings.catch_warnings():
+            warnings.simplefilter("ignore")
+            return pbx.canon_pb(pbx.PYOPS[op](L, R))
+    except BaseException as e:  # noqa
+        return ("err", core.err_kind(e))
+
+
 def impl_public(op, dep, x, y, bare=False, int_dtype=False, keep=True, y_interval=False):
     import warnings
     try:
@@ -225,6 +270,30 @@ def gen_cases(ctx):
         if op == "div" and lo <= 0 <= hi:
             lo, hi = 1, 1 + (hi - lo)
         cases.append(("public-ivlobj", "public", op, pbx.int_box200(rng, sx), ([lo] * 200, [hi] * 200)))
+    # the same integer step boxes at other magnitudes (powers of two: still exact)
+    for _ in range(ctx.scale(30, 600)):
+        op = rng.choice(["add", "sub", "mul", "div", "div"])
+        sx, sy = rng.choice(signs), rng.choice(signs)
+        if op == "div" and sy in ("str", None, "pos0", "neg0"):
+            sy = rng.choice(["pos", "neg"])
+        s1, s2 = (rng.choice([2.0 ** -30, 2.0 ** -24, 2.0 ** -60, 2.0 ** -70, 2.0 ** 36]) for _ in range(2))
+        if op in ("add", "sub"):
+            s2 = s1
+        x, y = pbx.int_box200(rng, sx), pbx.int_box200(rng, sy)
+        cases.append(("public-scaled", "public", op, ([v * s1 for v in x[0]], [v * s1 for v in x[1]]),
+                      ([v * s2 for v in y[0]], [v * s2 for v in y[1]])))
+    # operands of other kinds on either side of the bare operator: Interval objects and Dempster-Shafer structures
+    # (each is converted by the library; the Frechet law is about the p-boxes they stand for)
+    KOBJ.clear()
+    for i in range(ctx.scale(40, 600)):
+        op = rng.choice(["add", "sub", "sub", "mul", "div", "div"])
+        lk, rk = rng.choice([("I", "D"), ("I", "D"), ("D", "I"), ("P", "D"), ("D", "P"), ("D", "D"), ("I", "P")])
+        sx = rng.choice(["pos", "neg", "str"])
+        sy = rng.choice(["pos", "neg"]) if op == "div" else rng.choice(["pos", "neg", "str"])
+        L, x = _kind_operand(rng, lk, sx)
+        R, y = _kind_operand(rng, rk, sy)
+        KOBJ[i] = (L, R)
+        cases.append((f"public-kinds:{lk}{rk}:{i}", "public", op, x, y))
     for _ in range(ctx.scale(24, 600)):
         op = rng.choice(["add", "sub", "mul", "div"])
         sx, sy = rng.choice(signs), rng.choice(signs)
@@ -261,11 +330,14 @@ def run(ctx: core.Check):
         triv = (n == 1 and x[0] == x[1] and y[0] == y[1])
         ctx.count((rule, op, x, y), not triv, stream.split(":")[0])
         ctx.bump("signs:" + pbx.sign_class(*x) + "x" + pbx.sign_class(*y))
-        exact = stream in ("raw-small", "raw-naive", "raw-intdtype") or (stream in ("public-int", "public-intdtype", "public-ivlobj") and op != "div")
+        exact = stream in ("raw-small", "raw-naive", "raw-intdtype") or (stream in ("public-int", "public-intdtype", "public-ivlobj", "public-scaled") and op != "div")
         idt = stream.endswith("intdtype")
         if rule == "public":
             bare = rng.random() < 0.3
-            impl = impl_public(op, "f", x, y, bare, int_dtype=idt, y_interval=(stream == "public-ivlobj"))
+            if stream.startswith("public-kinds"):
+                impl = impl_kinds(op, int(stream.split(":")[2]))
+            else:
+                impl = impl_public(op, "f", x, y, bare, int_dtype=idt, y_interval=(stream == "public-ivlobj"))
         else:
             impl = impl_raw(rule, op, x, y, int_dtype=idt)
         model = pbx.parse_reply(rep)
